@@ -75,6 +75,10 @@ def partition_column(draw, name, kinds=("int", "float", "bool", "datetime", "tex
         per = DAY_NS // frames.UNIT_NS[col["unit"]]
         base = 18262 * per  # 2020-01-01
         cands = [base, base + per, base + 31 * per, base + per // 2, base + 3600 * (per // 86400), 0, base - 366 * per]
+        # instants one hour apart that read the same on a wall clock: the hour repeated when clocks go back
+        # (Europe/Berlin 2021-10-31 02:30, America/New_York 2021-11-07 01:30)
+        sec = per // 86400
+        cands += [1635640200 * sec, 1635643800 * sec, 1636263000 * sec, 1636266600 * sec]
         if col["unit"] == "ns":
             # instants that differ only below the microsecond, and with a sub-second part
             cands += [base + 1, base + 2, base + 1001, base + 123456789]
